@@ -101,6 +101,17 @@ Theorem c19_rust_key_reuse_breaks_isolation :
 Proof. vm_compute. reflexivity. Qed.
 Print Assumptions c19_rust_key_reuse_breaks_isolation.
 
+(** non-vacuity of the registry theorems: three generators (two repeating over [1;2;3] and [10;20], one non-repeating over [10;20]) with
+    distinct keys, interleaved pulls and an early drop: every stream is its own passes; the dropped and the finished stream answer Stop. *)
+Theorem c19_rust_nonvacuous :
+  let ps := fun i (_ : nat) => if i =? 0 then [1; 2; 3] else [10; 20] in
+  let ops := [Pull 0; Pull 1; Pull 0; Pull 1; Pull 1; Pull 0; Pull 0; Abandon 1; Pull 1; Pull 0; Pull 2; Pull 2; Pull 2] in
+  let rs := snd (run (fun n => n) (init ps (fun i => negb (i =? 2))) ops) in
+  stream 0 ops rs = [1; 2; 3; 1; 2] /\ stream 1 ops rs = [10; 20; 10] /\ stream 2 ops rs = [10; 20] /\
+  nth 8 rs None = Some Stop /\ nth 12 rs None = Some Stop.
+Proof. vm_compute. repeat split; reflexivity. Qed.
+Print Assumptions c19_rust_nonvacuous.
+
 Theorem c19_nonvacuous :
   let st := sb_run (cycle_source [1; 2; 3] 0) (lcg_pick 5) (@rev nat) 2 100 (sb_init (cycle_source [1; 2; 3] 0) 0) in
   length (sb_out st) = 97 /\ take_src nat [7; 8; 9] 0 7 0 = [7; 8; 9; 7; 8; 9; 7].
